@@ -69,6 +69,21 @@ ADD = {
  "C14": " Round 2: offsets are used on the string they were found in (R-C14-samestr); the pre-processor keeps byte positions (R-C14-blank).",
  "C15": " Round 2: token line/column: a line advance re-bases the column (R-C15-linecol); the pre-processor keeps byte positions (R-C15-blank).",
 }
+ADD3 = {
+ "C01": " Round 3: parsed sequences keep their source order (no rev/rfold/sort/swap/last on sequences of parsed nodes, R-C01-order).",
+ "C02": " Round 3: every registered stage reaches success only past all its fallible steps (R-C02-allwalks); no early `return <call>` bypasses later checks (R-C02-earlyok); the subrange comparison helper is interpreted over the finite domain of signs x zero-ness x order of magnitudes against a<b (R-C02-order); R-C02-merge.",
+ "C03": " Round 3: single successful exit of every stage past all fallible steps (R-C03-allwalks); create_project only adds sources (R-C03-grow); no Result is consumed by an error-dropping adaptor (R-C03-errdrop).",
+ "C04": " Round 3: every hand-written loop changes its exit state on every way round (R-C04-progress, natural loops + backward slice of exit tests); every recursion is a syntax-tree descent or justified (R-C04-recursion, SCCs of the call graph).",
+ "C05": " Round 3: the lexer consumes nothing without a token (R-C05-tile); every name built from a token's text gets that token's span in any grammar closure (R-C05-copy); a column reset sits on a line-break branch (R-C05-linecol clause 2).",
+ "C06": " Round 3: the sources container orders by key (R-C06-keyorder); no mutable global state (R-C06-globals); the declaration sort identifies names case-insensitively (R-C06-keys).",
+ "C09": " Round 3: whole part and fraction of fixed-point durations are scaled by the same unit, by exact rational evaluation of the constructor arguments, and no division precedes a multiplication (R-C09-scale); no conversion error is dropped by an adaptor (R-C09-errdrop).",
+ "C10": " Round 3: string contents are written as stored (R-C10-raw).",
+ "C11": " Round 3: sources ordered by key, not by history (R-C11-keyorder); no mutable globals (R-C11-globals).",
+ "C12": " Round 3: loop progress on the server's paths (R-C12-progress).",
+ "C13": " Round 3: handle_diagnostics renders every diagnostic it is given (R-C13-emitall).",
+ "C14": " Round 3: no mutable global state in the decoding path (R-C14-globals).",
+ "C15": " Round 3: start and length of semantic tokens are not byte quantities (R-C15-units, numeric slice incl. the lexer's producer of Token.col); the advertised legend is the constant itself (R-C15-legend); the lexer consumes nothing silently (R-C15-tile).",
+}
 NA_REASON = "check not built yet (round 1 in progress); see DESIGN.md section 3 for the planned static rules"
 props = [json.loads(l) for l in open("/verif/properties.jsonl")]
 checks = []
@@ -83,7 +98,7 @@ for p in props:
         "evidence_file": "/verif/evidence/%s.json" % p["id"],
         "replay_cmd_template": "./check %s --replay {path}" % p["id"],
         "engine": "mirfacts+rules",
-        "level_claimed": {"category": "other", "text": c["text"] + ADD.get(p["id"], ""), "design_ref": c["design"] + ", R2"},
+        "level_claimed": {"category": "other", "text": c["text"] + ADD.get(p["id"], "") + ADD3.get(p["id"], ""), "design_ref": c["design"] + ", R2, R3"},
         "level_note": NOTE,
         "technique": c["technique"],
     })
